@@ -120,9 +120,10 @@ def analyse_class(chk, ctx, ci, spec_index=None):
             T.sub(n, T.add(size_t, hf.size + 1)) == 0 and ch is ch_t and \
             kn.decide(T.compare('eq', ty_t, fm)) is True
         end_t = T.add(size_t, hf.size)
-        end_ok = kn.decide(T.compare('eq', T.index(data, end_t),
-                                     fe[0] if isinstance(fe, bytes) and fe
-                                     else -1)) is True
+        from ..framepaths import end_octet_guarded
+        end_ok = end_octet_guarded(kn, data, end_t,
+                                   fe[0] if isinstance(fe, bytes) and fe
+                                   else -1, fe)
         d_ok = d_ok and end_ok
     chk.ob('C01.E', q + ' unmarshal header', d_ok,
            'consumed=%s channel=%s' % (T.show(n)[:80], T.show(ch)[:80]),
